@@ -10,6 +10,7 @@ import (
 	"runtime/debug"
 	"strconv"
 	"sync"
+	"time"
 
 	cli "github.com/jawher/mow.cli"
 )
@@ -126,6 +127,8 @@ func (p *Proc) Emit(ev string) {
 
 // Execution trace digest (self-test of determinism only): every Point, callback event, exit and
 // stream write of every simulated process, in global order.
+var lastBeat = time.Now()
+
 var (
 	tracing bool
 	trace   uint64
@@ -271,7 +274,9 @@ func pointHook(site string) {
 		if runtime.Callers(depthBudget, depthScratch) > 0 {
 			panic(&budgetSentinel{"depth"})
 		}
-		if liftBudgets && p.Steps&(1<<23-1) == 0 {
+		if liftBudgets && time.Since(lastBeat) > time.Second {
+			// by the wall clock, not by steps: a scheduled step costs a goroutine hand-off
+			lastBeat = time.Now()
 			phase := "match"
 			if p.compiling {
 				phase = "compile"
